@@ -89,11 +89,15 @@ def exec_cases(ctx, cases, mode):
                     zero.append(line)
         # prefer the cases whose focus container is a non-empty homogeneous array (typed slice / reflect array with members)
         pref = [l for l in zero if b'"a":[{"i":50}' in l]
-        zero = pref or zero
+        # ... half of the sample with a start inside the array and an end far below it (the reflect loop
+        # `for i := start; end < i; i += 0` is then entered), the other half spread over the rest
         k = 6 if ctx.quick else 24
-        step = max(1, len(zero) // k)
+        prone = [l for l in pref if b'"e":-7,"ea":false' in l and (b'"s":0,"sa":false' in l or b'"s":1,"sa":false' in l)]
+        rest = pref or zero
+        step = max(1, len(rest) // k)
+        sample = prone[:k // 2] + rest[::step][:k - min(len(prone), k // 2)]
         with open(trace, "ab") as fo:
-            for j, line in enumerate(zero[::step][:k]):
+            for j, line in enumerate(sample):
                 q = subprocess.run([jb, "exec", "-set", "c11", "-one", ("tslice", "array")[j % 2]], input=line,
                                    capture_output=True, timeout=120, env=ctx.goenv())
                 if q.returncode != 0 or not q.stdout.strip():
